@@ -67,6 +67,8 @@ pub enum Act {
     SetFunction(usize, u8),
     SetBuiltinsDisabled(bool),
     CloneAndContinue,
+    /// continue with a used context that was overwritten by `clone_from`
+    CloneFromAndContinue,
 }
 
 fn act_show(a: &Act) -> String {
@@ -84,6 +86,7 @@ fn act_show(a: &Act) -> String {
         Act::SetFunction(n, f) => format!("set_function({}, F{})", FN_NAMES[*n], f),
         Act::SetBuiltinsDisabled(b) => format!("set_builtin_functions_disabled({})", b),
         Act::CloneAndContinue => "clone and continue with the clone".into(),
+        Act::CloneFromAndContinue => "clone_from into a used context (other variables, functions, opposite switch) and continue with it".into(),
     }
 }
 
@@ -122,6 +125,7 @@ fn all_actions(with_opassign: bool) -> Vec<Act> {
     v.push(Act::SetBuiltinsDisabled(true));
     v.push(Act::SetBuiltinsDisabled(false));
     v.push(Act::CloneAndContinue);
+    v.push(Act::CloneFromAndContinue);
     v
 }
 
@@ -381,6 +385,16 @@ fn apply(real: &mut HCtx, model: &mut RCtx, act: &Act) -> (Option<String>, u32) 
         Act::CloneAndContinue => {
             let c = real.clone();
             *real = c;
+            None
+        },
+        Act::CloneFromAndContinue => {
+            let mut target = HCtx::new();
+            let _ = target.set_builtin_functions_disabled(!real.are_builtin_functions_disabled());
+            let _ = target.set_value("stale".into(), Value::Int(1));
+            let _ = target.set_value(NAMES[0].into(), Value::String("stale".into()));
+            let _ = target.set_function("g".into(), user_fn(9));
+            target.clone_from(real);
+            *real = target;
             None
         },
     };
